@@ -51,17 +51,7 @@ Definition depth_args_ok : bool :=
              [("Decode", "decodeType"); ("decodeType", "Decode"); ("decodeType", "decodeType")]
   && match depth_assigned with [] => true | _ => false end.
 
-(* the once-per-type computations of desc.go as the model reads them: the id index is filled with
-   "none" for every slot and a field is found by its id only (Desc.get_field); a field may be omitted
-   when nil only if it is optional and a pointer, binary, map, list or set (Desc.can_skip_nil); when
-   equal to its default only if optional, not a pointer, and a default exists (Desc.can_skip_default);
-   its size is known up front only for non-optional, non-pointer fixed-size kinds; nocopy is taken
-   from the tag option; the required ids are those of the required fields *)
-Definition desc_expected : list (string * string) := [
-  ("structDesc.GetField", "{iffid>d.maxID{returnnil}i:=d.fieldIdx[fid]ifi<0{returnnil}returnd.fields[i]}");
-  ("structDesc.fromDefsFields", "{maxFieldID:=uint16(0)for_,f:=rangeff{iff.ID>maxFieldID{maxFieldID=f.ID}}d.maxID=maxFieldIDd.fieldIdx=make([]int,int(maxFieldID)+1)fori:=ranged.fieldIdx{d.fieldIdx[i]=-1}fields:=make([]tField,len(ff))d.fields=make([]*tField,len(ff))fori,f:=rangeff{d.fields[i]=&fields[i]d.fields[i].fromDefsField(f)d.fieldIdx[f.ID]=i}d.varLenFields=make([]int,0,len(ff))d.requiredFieldIDs=make([]uint16,0,len(ff))fori,f:=ranged.fields{ifn:=f.EncodedSize();n>0{d.fixedLenFieldSize+=n}else{d.varLenFields=append(d.varLenFields,i)}iff.Spec==defs.Required{d.requiredFieldIDs=append(d.requiredFieldIDs,f.ID)}}}");
-  ("tField.EncodedSize", "{iff.Type.IsPointer{return-1}iff.Spec==defs.Optional{return-1}iff.Type.FixedSize>0{returnfieldHeaderLen+f.Type.FixedSize}return-1}");
-  ("tField.fromDefsField", "{f.ID=x.IDf.Offset=uintptr(x.F)f.Type=newTType(x.Type)f.Spec=x.Spect:=f.Typef.NoCopy=(x.Opts&defs.NoCopy)!=0iff.NoCopy&&f.Type.WT!=tSTRING{panic(""[BUG]nocopyonnon-STRINGtype"")}f.CanSkipEncodeIfNil=f.Spec==defs.Optional&&(t.Tag==defs.T_pointer||t.Tag==defs.T_binary||containerTypes[t.T])v:=x.Defaultforv.Kind()==reflect.Ptr{v=v.Elem()}if!v.IsValid(){return}f.Default=unsafe.Pointer(v.UnsafeAddr())f.CanSkipIfDefault=(f.Spec==defs.Optional)&&t.Tag!=defs.T_pointer&&f.Default!=nil}");
-  ("containerTypes", "[256]bool{tMAP:true,tLIST:true,tSET:true,}")
-].
-Definition desc_ok : bool := list_eqb pair_eqb desc_bodies desc_expected.
+(* the once-per-type computations of desc.go (id index, GetField, skip flags, nocopy, required ids,
+   up-front field sizes) are NOT compared as text: gen/Discipline.v still records their bodies
+   (desc_bodies), but what they compute is compared with Desc.v for every type of every run by the
+   `desc` operation of the correspondence check (hook VerifDesc), which survives refactorings. *)
